@@ -837,7 +837,9 @@ package server
 //@ assigns nothing
 //@ may_emit AttrStr
 //@ ensures[C19] one_attribute_per_configured_header: len(result) == len(headerNames)
+//@ ensures[C19] every_value_of_the_header_is_logged: forall i int :: 0 <= i && i < len(headerNames) ==> attrVal(result[i]) == joined(ite(haskey(header, headerNames[i]), header[headerNames[i]], zero(`[]string`)), ",")
 //@ loop 1 invariant one_each: len(attrs) == idx && idx <= len(coll) && coll == headerNames
+//@ loop 1 invariant[C19] values_so_far: forall i int :: 0 <= i && i < len(attrs) ==> attrVal(attrs[i]) == joined(ite(haskey(header, coll[i]), header[coll[i]], zero(`[]string`)), ",")
 
 //@ func (*server.LoggingMiddleware).ServeHTTP
 //@ requires r != nil && r.URL != nil && !isnil(w) && !isnil(h.next) && h.logger != nil
